@@ -111,6 +111,57 @@ class MaskedList(_Masked):
 
 
 class MaskedSet(_Masked):
+    # ---- set algebra with other masked collections over the same universe and with ordinary sets
+    def _bits_of(self, other):
+        if isinstance(other, _Masked):
+            return [other.bits[other.idx(u)] if other.idx(u) is not None else z3.BoolVal(False) for u in self.U], \
+                [u for u, b in zip(other.U, other.bits) if self.idx(u) is None and not z3.is_false(z3.simplify(b))]
+        other = list(other)
+        return [z3.BoolVal(any(u == y for y in other)) for u in self.U], [y for y in other if self.idx(y) is None]
+
+    def _combine(self, other, f, need_universe):
+        ob, outside = self._bits_of(other)
+        if outside and need_universe:
+            raise Unsupported("set operation with elements outside the universe")
+        return MaskedSet(self.U, [f(a, b) for a, b in zip(self.bits, ob)])
+
+    def __or__(self, o):
+        return self._combine(o, lambda a, b: z3.Or(a, b), True)
+
+    __ror__ = __or__
+
+    def __and__(self, o):
+        return self._combine(o, lambda a, b: z3.And(a, b), False)
+
+    __rand__ = __and__
+
+    def __sub__(self, o):
+        return self._combine(o, lambda a, b: z3.And(a, z3.Not(b)), False)
+
+    def __rsub__(self, o):
+        return self._combine(o, lambda a, b: z3.And(b, z3.Not(a)), True)
+
+    def difference(self, *os):
+        r = self
+        for o in os:
+            r = r - o
+        return r
+
+    def union(self, *os):
+        r = self
+        for o in os:
+            r = r | o
+        return r
+
+    def intersection(self, *os):
+        r = self
+        for o in os:
+            r = r & o
+        return r
+
+    def copy(self):
+        return MaskedSet(self.U, list(self.bits))
+
     def add(self, x):
         i = self.idx(x)
         if i is None:
